@@ -303,7 +303,7 @@ class TimeSeriesCausalGraph(CausalGraph):
                 for i in range(len(ordered_nodes_list)):
                     assert isinstance(ordered_nodes_list[i], list)
                     tmp = self._get_time_topological_order(ordered_nodes_list[i])  # type: ignore
-                    if len(tmp) > 0:
+                    if tmp is not None:
                         ordered_nodes.append(tmp)
 
                 return ordered_nodes
@@ -1141,8 +1141,8 @@ class TimeSeriesCausalGraph(CausalGraph):
                 f'but the node was not found!'
             ) from e
 
-    def _get_time_topological_order(self, ordered_nodes: List[str]) -> List[str]:
-        """Return the provided list if it is ordered in time; otherwise, an empty list is returned."""
+    def _get_time_topological_order(self, ordered_nodes: List[str]) -> Optional[List[str]]:
+        """Return the provided list if it is ordered in time; otherwise, `None` is returned."""
         # Iterate through the list to ensure it respects the time ordering.
         for j, node in enumerate(ordered_nodes):
             if j == 0:
@@ -1150,7 +1150,7 @@ class TimeSeriesCausalGraph(CausalGraph):
             assert isinstance(node, str)  # for linting
             # check if the time delta is correct
             if self.get_node(ordered_nodes[j - 1]).time_lag > self.get_node(ordered_nodes[j]).time_lag:  # type: ignore
-                return []
+                return None
 
         return ordered_nodes
 
